@@ -59,6 +59,34 @@ def variants(r, text):
     return '\n'.join(out)
 
 
+def reflow(c, r, text):
+    """Newlines are whitespace: break the lines of a program before randomly chosen tokens, and split plain string literals
+    into adjacent literals one per line (the layout of examples/ssh.rsyn). Token positions come from the real lexer, so a
+    break is never placed inside a token."""
+    out = []
+    for l in text.split('\n'):
+        if not l.strip() or '#' in l or '//' in l:
+            out.append(l); continue
+        # split string literals without hex sections: "abcd" -> "ab" NEWLINE "cd"
+        def split_lit(m):
+            body = m.group(1)
+            if '|' in body or len(body) < 2 or not r.chance(1, 2): return m.group(0)
+            k = 1 + r.below(len(body) - 1)
+            return '"%s"\n%s"%s"' % (body[:k], r.choice(['', '  ', '\t']), body[k:])
+        resp = c.harness.ask('lexlines ' + core.sh_hex(l.encode('utf-8')))
+        cols = []
+        for t in resp.split(' | ')[0].split(' ')[1:]:
+            f = t.split(':')
+            if len(f) == 4 and f[0] != 'str': cols.append(int(f[2]) - 1)
+        b = l.encode('utf-8')
+        cut = sorted(set(x for x in cols if x > 0 and r.chance(1, 3)), reverse=True)
+        for x in cut:
+            b = b[:x] + b'\n' + b[x:]
+        l2 = re.sub(r'"([^"\n]*)"', split_lit, b.decode('utf-8'))
+        out.append(l2)
+    return '\n'.join(out)
+
+
 def source_scan(c):
     """the only hidden input of the binary is the HashMap hasher seed; harmless iff the maps are never iterated"""
     bad = []
@@ -146,6 +174,24 @@ def campaign(c):
                 im2, mo2 = progdiff.run_both(c, v)
                 progdiff.compare(c, v, im2, mo2, 'variant')
                 c.count('text-variants')
+            # the same program laid out over several lines per statement, adjacent string literals one per line; then the
+            # text-level edits again on that layout (blank / comment lines now fall inside statements and between literals)
+            if impl['outcome'][0] == 'success':
+                try:
+                    rf = reflow(c, r, src.decode('utf-8'))
+                except UnicodeDecodeError:
+                    rf = None
+                if rf is not None:
+                    for what, txt in (('reflow', rf), ('reflow+edits', variants(r, rf)), ('reflow+blank-lines', '\n\n'.join(rf.split('\n')))):
+                        if what == 'reflow+edits':
+                            im3, mo3 = progdiff.run_both(c, txt.encode('utf-8'))
+                            progdiff.compare(c, txt.encode('utf-8'), im3, mo3, 'layout-variant')
+                            res = dict(pcap=im3['file'])
+                        else:
+                            res = core.run_cli(txt.encode('utf-8'))
+                        if res['pcap'] != impl['file']:
+                            c.violation('det:layout:' + what, 'laying the program out over more lines (%s) changed the output' % what, dict(src=txt[:3000], orig=rep['src']))
+                        c.count('layout-variants')
         key = hash(src) if (impl['file'] and len(impl['file']) > 24) or (impl['outcome'][0] == 'failure' and impl['outcome'][2] != (0, 0)) else None
         c.count('outcome:' + impl['outcome'][0])
         c.case(key, dict(src=rep['src'][:300], outcome=str(impl['outcome'])) if key else None)
